@@ -619,6 +619,21 @@ def check_nonlinear(ctx, tabs):
             if not np.allclose(sols[-1], want, rtol=0, atol=tolr):
                 ctx.violation('method=%s clause=nonlinear_step' % name, {'case': key, 'got': np.asarray(sols[-1]).tolist(),
                                                                         'want': want.tolist(), 'tol': tolr})
+            # the steppers must be memoryless: in a multi-step run (constant step size, so that anything cached
+            # per step size / per run would be reused) every step equals a single fresh step from the previous state
+            try:
+                times3, sols3 = public_call(name, t, M, F, J, x0.copy(), tau, 3 * tau)
+                ok = len(sols3) >= 3 and len(sols3) == len(times3)     # 3*tau may round up to a 4th step
+                worst = 0.0
+                for kk in range(len(sols3) - 1):
+                    _, one = public_call(name, t, M, F, J, np.array(sols3[kk], dtype=float).copy(), tau, tau)
+                    worst = max(worst, float(np.abs(np.asarray(one[-1]) - np.asarray(sols3[kk + 1])).max()))
+                ctx.case(key + ' multi-step')
+                if not ok or worst > 1e-10:
+                    ctx.violation('method=%s clause=multi_step_not_memoryless' % name,
+                                  {'case': key, 'max_deviation_from_fresh_single_step': worst, 'steps': len(sols3) - 1})
+            except Exception as ex:
+                ctx.violation('exception %s method=%s nonlinear multi-step' % (type(ex).__name__, name), {'error': repr(ex)})
 
 
 # =====================================================================================================
